@@ -16,6 +16,7 @@ import (
 	"encoding/json"
 	"errors"
 	"fmt"
+	"io"
 	"math/rand"
 	"os"
 	"path/filepath"
@@ -31,8 +32,10 @@ import (
 
 	"github.com/lestrrat-go/jwx/v2/jwa"
 	"github.com/nuts-foundation/go-stoabs"
+	"github.com/nuts-foundation/go-stoabs/bbolt"
 	"github.com/nuts-foundation/nuts-node/crypto/hash"
 	"github.com/nuts-foundation/nuts-node/network/dag"
+	"github.com/sirupsen/logrus"
 	"verif/lib/dagx"
 	"verif/lib/ev"
 	"verif/lib/faultstore"
@@ -189,6 +192,19 @@ func nz(s string) string {
 
 func ledgerPath(dir string, phase int) string {
 	return filepath.Join(dir, "ledger."+strconv.Itoa(phase))
+}
+
+// openStore opens the bbolt store of a case like dagx.OpenStore, with a lock acquisition timeout far beyond the watchdog: on a loaded machine the
+// default (3 s) can expire while other goroutines of the worker commit with sync writes, the notifier then gives up its retry loop for a reason
+// that is wall-clock, not part of the fault model (and go-stoabs can leave the store locked when that timeout races the acquisition).
+func openStore(dir string, sync bool) (stoabs.KVStore, error) {
+	lg := logrus.New()
+	lg.SetOutput(io.Discard)
+	opts := []stoabs.Option{stoabs.WithLogger(lg), stoabs.WithLockAcquireTimeout(10 * time.Minute)}
+	if !sync {
+		opts = append(opts, stoabs.WithNoSync())
+	}
+	return bbolt.CreateBBoltStore(filepath.Join(dir, "dag.db"), opts...)
 }
 
 // ---- ledger reading ---------------------------------------------------------------------------------------------
@@ -359,7 +375,7 @@ func phaseWorker(args []string) int {
 	led := worker.OpenLedger(ledgerPath(dir, phase))
 	led.Log("phase %d start plan=%s", phase, plan.Point)
 
-	db, err := dagx.OpenStore(dir, true)
+	db, err := openStore(dir, true)
 	if err != nil {
 		led.Log("harness-error open %v", err)
 		return 3
@@ -1343,7 +1359,7 @@ type finalState struct {
 }
 
 func readFinal(dir string, sc *scenario) (*finalState, error) {
-	db, err := dagx.OpenStore(dir, false)
+	db, err := openStore(dir, false)
 	if err != nil {
 		return nil, err
 	}
@@ -2098,7 +2114,7 @@ func TestCheck(t *testing.T) {
 		"Each case = 2-3 worker processes on one data directory; the oracle runs over the merged ledgers and the final store. " +
 		"A case is non-trivial when its crash point was reached, the final DAG is not empty and persistent subscribers received deliveries; distinct by (crash points, crash target, scenario).")
 	r.Require(r.Pick(100, 800), r.Pick(60, 500))
-	r.Assume("bbolt file store with sync writes; page-cache durability (SIGKILL, not power loss)")
+	r.Assume("bbolt file store with sync writes; page-cache durability (SIGKILL, not power loss); store lock acquisition does not time out (10 min instead of the default 3 s: lock time-outs under machine load are not part of the fault model)")
 	r.Assume(fmt.Sprintf("retry budget = %d attempts per event (dag.maxRetries); an event counts as failed for good when its persisted retry counter reached the budget or its last delivery reported a fatal error", retryBudget))
 	r.Assume("a process is quiescent when no goroutine has a frame inside dag.(*notifier) (stack dump); wall-clock only bounds the wait for that (-> inconclusive)")
 	r.Assume("receiver behaviour is a function of the attempt number per (subscriber, transaction, event type) counted over all processes of a case")
